@@ -12,7 +12,7 @@ TEXT = {
  'C10': ('proof', 'Verus proves the observer handle automaton on the real bodies: value_inner / try_get_value error table, disallow_future_use transitions, subscribe / unsubscribe (Mismatch first, dead observer unchanged, exact handler-map update), State::unsubscribe never panics, Observer::drop acts iff it is the last clone (must-call / must-not-call variants). Frame obligations pin where the lifecycle states are assigned.', '4/C10'),
  'C09': ('proof', 'Verus proves the per-handler transition table (OnUpdateHandler::run), that every call of the user callback carries exactly the due update and the node\'s current value (call_requires obligations), and the end-of-stabilise classification Node::node_update (Changed iff the value changed in the stabilisation being closed). Delivery loops are pinned by frame obligations.', '4/C09'),
  'C08': ('proof', 'Verus proves the five write paths of Var on the real bodies for both engine phases (immediate outside stabilise, parked and composed in program order during stabilise), stabilise-end application, and the staleness bookkeeping of did_set_var_while_not_stabilising.', '4/C08'),
- 'C11': ('other', 'Only the handler-count clause: Verus proves that subscribe / unsubscribe / linking / unlinking move the per-node handler counter by exactly the number of handlers registered, and a lemma composes them. All other clauses of C11 are not under contract.', '4/C11'),
+ 'C11': ('other', 'Two clauses only. Handler counts: Verus proves that subscribe / unsubscribe / linking / unlinking move the per-node handler counter by exactly the handlers registered (composition lemma). Edge bookkeeping: Verus proves on the real bodies that Node::add_parent records a new edge symmetrically on both ends, Node::remove_parent removes exactly that edge and re-slots the parent moved into the freed position symmetrically, and expert_swap_children_except_in_kind keeps both swapped edges symmetric - each with a full frame (nothing else moves). Whether these are called for the right nodes, heights, heap membership and stats().necessary are not under contract.', '4/C11'),
  'C07': ('other', 'Mechanism: try_get_value gating (no reads while Stabilising, NeverStabilised until linked) proved by Verus; Var writes outside stabilise proved to leave node values untouched; frame obligations pin the writers of node values, of the engine status and of the observer states.', '4/C07'),
  'C13': ('other', 'Mechanism: nested stabilise must panic before touching anything (Verus, must-panic variant), reads refuse while Stabilising, Var writes while Stabilising only park; frame obligations: status is written only by stabilise_start/stabilise_end, no catch_unwind, statement order of stabilise.', '4/C13'),
  'C06': ('other', 'Mechanism: Cutoff::should_cutoff and ErasedCutoff forward (old,new) in order for every cutoff kind; the staleness predicates edge_is_stale / is_stale / needs_to_be_computed are proved against their specification; frame obligations pin where changed_at / recomputed_at are written and that maybe_change_value consults the cutoff with (old,new).', '4/C06'),
